@@ -89,6 +89,9 @@ static void vc_hex(char *dst, size_t dstsz, const unsigned char *p, int n){ size
 static void vc_begin_case(long idx){ vc_case=idx; if(vc_progress_fd>=0){ char b[96]; int n=snprintf(b,sizeof b,"%s:%llu:%ld\n                ",vc_mode,(unsigned long long)vc_seed,idx); if(pwrite(vc_progress_fd,b,n,0)<0){} } }
 
 typedef struct { const char *name; void (*fn)(void); } vc_mode_t;
+/* hook H1: `cap=N` on the command line caps the RTCD feature level of every codec object created afterwards */
+extern int opus_verif_arch_cap __attribute__((weak));
+static void vc_apply_arch_cap(void){ const char *c=vc_arg("cap",NULL); if(!c) return; if(&opus_verif_arch_cap) opus_verif_arch_cap=atoi(c); else { fprintf(stderr,"hook H1 (opus_verif_arch_cap) is missing from this tree\n"); exit(3); } }
 
 static int vc_main(int argc,char **argv,const char *prop,const vc_mode_t *modes){
   if(argc<6){ fprintf(stderr,"usage: %s <mode> <seed> <start> <step> <count> [k=v...]\n",argv[0]); return 3; }
@@ -97,7 +100,7 @@ static int vc_main(int argc,char **argv,const char *prop,const vc_mode_t *modes)
   const char *pf=getenv("VERIF_PROGRESS"); if(pf) vc_progress_fd=open(pf,O_CREAT|O_WRONLY|O_TRUNC,0644);
   const vc_mode_t *m=modes; while(m->name&&strcmp(m->name,vc_mode)) m++;
   if(!m->name){ fprintf(stderr,"unknown mode %s\n",vc_mode); return 3; }
-  if(step<1) step=1; long n=0;
+  vc_apply_arch_cap(); if(step<1) step=1; long n=0;
   for(long i=start;i<count;i+=step){ vc_begin_case(i); m->fn(); n++; }
   printf("N %ld\n",n);
   for(int i=0;i<VC_NT;i++) if(vc_tab[i].name[0]){ if(vc_tab[i].kind=='C') printf("C %s %ld\n",vc_tab[i].name,vc_tab[i].cnt); else if(vc_tab[i].kind=='D') printf("D %s %ld\n",vc_tab[i].name,vc_tab[i].cnt); else if(vc_tab[i].kind=='M') printf("M %s %.9g\n",vc_tab[i].name,vc_tab[i].mx); else printf("m %s %.9g\n",vc_tab[i].name,vc_tab[i].mn); }
